@@ -141,6 +141,10 @@ fn check_language(m: &mut ReManager, atoms: &Atoms, s: &Slot, idx: usize, when: 
             );
             false
         }
+        BisimResult::Capped => {
+            o.tag("bisim-capped");
+            true
+        }
         _ => true,
     }
 }
@@ -159,7 +163,7 @@ pub fn run(tape: &[u8], cx: &Cx) -> Outcome {
         o.tag("wrappers");
         let a2 = atoms.clone();
         let ops2 = ops.clone();
-        let r = std::thread::spawn(move || catch(move || interpret_wrapped(&a2, &ops2))).join().unwrap_or_else(|_| Err("wrapper thread died".into()));
+        let r = crate::runner::spawn_user_thread(move || catch(move || interpret_wrapped(&a2, &ops2))).join().unwrap_or_else(|_| Err("wrapper thread died".into()));
         match r {
             Ok(sub) => {
                 o.evals += sub.evals;
@@ -535,11 +539,13 @@ pub fn enumerate(thorough: bool, part: usize, _parts: usize, sink: &mut crate::r
             let mut fails: Vec<(String, String)> = Vec::new();
             let mut m = ReManager::new();
             let x = wide(&mut m, groups, per_group);
+            // (how many derivative classes the term has is not specified: a manager that simplifies the
+            // inner intersections away has fewer, and the case then exercises less; it is never a failure)
             if x.num_deriv_classes() != n {
-                fails.push(("C07/scale/classes".into(), format!("term with {} distinct characters has {} derivative classes", n, x.num_deriv_classes())));
-                return fails;
+                fails.push(("__tag".into(), "scale-term-simplified".into()));
             }
             let notx = m.complement(x);
+            let ids_not: Vec<_> = notx.class_ids().collect();
             if ptr(m.complement(notx)) != ptr(x) {
                 fails.push(("C07/complement-not-involution".into(), "complement(complement(x)) is not x for the wide term".into()));
             }
@@ -558,7 +564,7 @@ pub fn enumerate(thorough: bool, part: usize, _parts: usize, sink: &mut crate::r
                 }
                 if k % 1000 == 999 || k + 1 == ids.len() {
                     // a few derivatives of the complement in between
-                    for cid2 in [aws_smt_strings::character_sets::ClassId::Complement, aws_smt_strings::character_sets::ClassId::Interval(k % n), aws_smt_strings::character_sets::ClassId::Interval(0)] {
+                    for cid2 in [ids_not[ids_not.len() - 1], ids_not[k % ids_not.len()], ids_not[0]] {
                         let d2 = m.class_derivative(notx, cid2).unwrap();
                         evals += 1;
                         let c2 = m.complement(d2);
@@ -600,6 +606,8 @@ pub fn enumerate(thorough: bool, part: usize, _parts: usize, sink: &mut crate::r
                 for (c, msg) in fails {
                     if c == "__evals" {
                         o.evals += msg.parse::<u64>().unwrap_or(0);
+                    } else if c == "__tag" {
+                        o.tag("scale-term-simplified");
                     } else {
                         o.fail(&c, msg);
                     }
@@ -673,6 +681,8 @@ pub fn enumerate(thorough: bool, part: usize, _parts: usize, sink: &mut crate::r
                 for (c, msg) in fails {
                     if c == "__evals" {
                         o.evals += msg.parse::<u64>().unwrap_or(0);
+                    } else if c == "__tag" {
+                        o.tag("scale-term-simplified");
                     } else {
                         o.fail(&c, msg);
                     }
